@@ -416,6 +416,8 @@ pub struct PutSnap {
     /// (count, code) in the order kept by the query
     pub errors: Vec<(u64, i32)>,
     pub extra_nodes: usize,
+    /// the item of a mutable put: (seq, cas, value)
+    pub item: Option<(i64, Option<i64>, Vec<u8>)>,
 }
 
 #[derive(Debug, Clone, serde::Serialize)]
@@ -429,6 +431,8 @@ pub struct QuerySnap {
     pub live: usize,
     pub responders: Vec<(String, String)>,
     pub responses: usize,
+    /// the responses seen so far, in order: "m:<seq>:<value hex>", "i:<value hex>", "p:<count>", "s:<count>"
+    pub response_items: Vec<String>,
     pub votes: Vec<(String, u32)>,
 }
 
@@ -481,6 +485,8 @@ pub struct CacheSnap {
     pub find_node: bool,
     pub signed: bool,
     pub nodes: usize,
+    /// addresses of the cached closest (responding) nodes
+    pub node_addrs: Vec<String>,
     pub tokens: usize,
     pub dht_size_estimate: f64,
     pub responders_dht_size_estimate: f64,
